@@ -1,5 +1,5 @@
 // C20 — UTF-8 string utilities and interval algebra (header-only cclCommons) against naive references.
-// modes: utf8   all strings of <= L code points over a 9-symbol alphabet (1..4-byte code points)
+// modes: utf8   all strings of <= L code points over a 17-symbol alphabet (1..4-byte code points)
 //        ranges all pairs / short lists of StrRange in a bounded window; CreateTranslator over all maps on 3 keys
 #include "engine/mc.hpp"
 
@@ -13,7 +13,12 @@ using ccl::StrRange;
 
 namespace {
 
-const std::vector<std::string> kAlphabet = { "a", "7", "-", ",", " ", "\t", "\xD1\x8F" /*я*/, "\xE2\x84\xAC" /*ℬ*/, "\xF0\xA0\x9C\x8E" /*𠜎*/ };
+// ASCII symbols with a role in the utilities, then first / typical / last code point of every encoded length (every distinct
+// kind of lead byte: C2, D1, DF | E0, E2, ED, EE, EF | F0, F0(typical), F4)
+const std::vector<std::string> kAlphabet = { "a", "7", "-", ",", " ", "\t",
+  "\xC2\x80" /*U+0080*/, "\xD1\x8F" /*я*/, "\xDF\xBF" /*U+07FF*/,
+  "\xE0\xA0\x80" /*U+0800*/, "\xE2\x84\xAC" /*ℬ*/, "\xED\x9F\xBF" /*U+D7FF*/, "\xEE\x80\x80" /*U+E000*/, "\xEF\xBF\xBD" /*U+FFFD*/,
+  "\xF0\x90\x80\x80" /*U+10000*/, "\xF0\xA0\x9C\x8E" /*𠜎*/, "\xF4\x8F\xBF\xBF" /*U+10FFFF*/ };
 
 struct Decoded { std::vector<size_t> off, len; };  // reference decoding: built from the alphabet, not from the library
 bool refIsSpace(char c) { return c == ' ' || c == '\t' || c == '\n' || c == '\v' || c == '\f' || c == '\r'; }
@@ -213,8 +218,8 @@ int main(int argc, char** argv) {
   if (opt.mode == "utf8") {
     const int L = static_cast<int>(opt.num("maxlen", opt.thorough() ? 7 : 5));
     res.rep = run_sharded(opt, "utf8", [&](Ctx& c) { enumerate_strings(c, L); }, &ri);
-    res.completed_bound = "all strings of <= " + std::to_string(L) + " code points over a 9-symbol alphabet";
-    res.alphabet = "a 7 - , space tab я(2 bytes) ℬ(3 bytes) 𠜎(4 bytes)";
+    res.completed_bound = "all strings of <= " + std::to_string(L) + " code points over a 17-symbol alphabet";
+    res.alphabet = "a 7 - , space tab | U+0080 я U+07FF | U+0800 ℬ U+D7FF U+E000 U+FFFD | U+10000 𠜎 U+10FFFF (first / typical / last code point of every encoded length and lead-byte class)";
     res.rule = "case = one string; every string of the bounded space enumerated once (distinct by construction); non-trivial = contains a multi-byte code point; per case: iteration, size, positioned iterators, Substr over all ranges 0<=a<=b<=len+2, SplitBySymbol x3 delimiters, TrimWhitespace, IsInteger vs naive references";
   } else if (opt.mode == "ranges") {
     const int N = static_cast<int>(opt.num("window", opt.thorough() ? 12 : 6));
